@@ -95,6 +95,10 @@ def handle_bundles(tier, seed):
 
 def check_c18(tier, seed):
     out = Outcome("C18", tier, seed)
+    # design level: however the backend splits a transfer (short counts, Interrupted), the loops below the stream buffer deliver
+    # / store exactly the range (CfbChainIO)
+    from .checks import design_chainio
+    design_chainio(out, 3, 2 if tier == "quick" else 3, 2 if tier == "quick" else 3)
     key = lambda h: h["cfg"]["script"]
     run_batch(out, "file", "A", file_bundles(tier, seed), group_key=key, extra_specs=("Trace_Config",))
     run_batch(out, "handle", "A", handle_bundles(tier, seed), spec="Trace_Handle", driver="hdrive", group_key=key,
